@@ -538,7 +538,7 @@ fn scaling_case(src: &mut Src, ctx: &mut Ctx) -> Result<(), String> {
     Ok(())
 }
 
-// ---- time scaling: CPU time for an input four times as long -----------------------------------------------
+// ---- time scaling: CPU time for an input sixteen times as long -----------------------------------------------
 fn time_stream(shape: u64, n: usize) -> Vec<u8> {
     let d = [1i16; 12];
     let c = MCommon::default();
@@ -564,12 +564,12 @@ fn time_stream(shape: u64, n: usize) -> Vec<u8> {
 }
 fn time_case(src: &mut Src, ctx: &mut Ctx) -> Result<(), String> {
     let shape = src.u64() % 5;
-    let n = 24_000usize;
-    let (a, b) = (time_stream(shape, n), time_stream(shape, 4 * n));
+    let n = 6_000usize;
+    let (a, b) = (time_stream(shape, n), time_stream(shape, 16 * n));
     ctx.nontrivial(hash_of(&shape));
     let what = ["many empty structures", "many one-element structures", "many elements in one structure", "many properties on one element", "a long chain of references"][shape as usize];
-    let r = alloc::quadruples_badly(|big| GdsLibrary::from_bytes(if big { &b } else { &a }).is_ok()).map_err(|e| format!("reading time grows faster than the input ({}: {} and {} bytes): {}", what, a.len(), b.len(), e))?;
-    ctx.label(&format!("time scaling, {}: x{:.0} CPU time for x4 input", what, (r.1 / r.0.max(1e-6)).round()));
+    let r = alloc::grows_badly(|big| GdsLibrary::from_bytes(if big { &b } else { &a }).is_ok()).map_err(|e| format!("reading time grows faster than the input ({}: {} and {} bytes): {}", what, a.len(), b.len(), e))?;
+    ctx.label(&format!("time scaling, {}: x{:.0} CPU time for x16 input", what, (r.1 / r.0.max(1e-6)).round()));
     ctx.sample("time scaling", || format!("{}: {} bytes in {:.1} ms, {} bytes in {:.1} ms of CPU time", what, a.len(), r.0 * 1e3, b.len(), r.1 * 1e3));
     Ok(())
 }
@@ -609,7 +609,7 @@ fn shared_nesting_case(src: &mut Src, ctx: &mut Ctx) -> Result<(), String> {
 fn run(run: &mut Run) {
     engine::journal::set_hang_ms(30_000);
     run.rule("Base streams: 30 generated valid streams (all element kinds, <= ~2 KB), one stream with a 32 KB XY record, 3 repository files. (i) every truncation point of every base; (ii) every single-record fault (6 length faults, empty payload, 64 record types, 8 data types, delete/duplicate/swap, 8 splices) at every record of the generated bases and every n-th record of the repository files; (ii-b) a well-formed record of each of the 64 record types x 11 payload shapes inserted at every record boundary of the generated bases; (ii-c) floods: each of those records repeated 100 000 times at library, structure and element level of two bases, read on a 2 MB stack; (iii) proptest-driven byte mutations and noise; extreme/unnormalised reals in UNITS; allocation scaling. Non-trivial = faulted stream differs from its base; distinct by hash of the bytes.");
-    run.assume("termination is observed as: the call returns before the supervisor's hang watchdog / 60 s CPU limit; 'time proportional to input' is checked as (a) allocation volume at most doubling when the input doubles and (b) best-of-three thread CPU time growing at most 8-fold (+20 ms) when the input quadruples, on five stream shapes of about 1 to 4 MB");
+    run.assume("termination is observed as: the call returns before the supervisor's hang watchdog / 60 s CPU limit; 'time proportional to input' is checked as (a) allocation volume at most doubling when the input doubles and (b) thread CPU time (best of five / three) growing at most 64-fold (+50 ms) when the input grows 16-fold, a suspicious measurement being repeated up to three times, on five stream shapes of about 1 to 4 MB");
     run.assume("which error is returned is not asserted");
     run.min_nontrivial = 1000;
     run.enumerate("truncations", *trunc_table().last().unwrap(), &trunc_case);
